@@ -2,7 +2,7 @@ SPECIFICATION Spec
 CONSTANTS
   Vers = {"sasl"}
   Mechs = {"PLAIN", "DIGEST-MD5"}
-  Creds = {"right", "otherUser"}
+  Creds = {"right", "otherUser", "victimOwnSecret"}
   BindRes = {"ra"}
   Kinds = {"message", "presence", "iq"}
   Froms = {"absent", "own", "ownBare", "victim", "other", "ownOtherRes", "ownSibling", "ownCase", "ownSlash", "ownPrefix", "ownDomain", "ownLookalike"}
